@@ -140,6 +140,27 @@ def make_view(ds, case, seed='case', call=None):
         seed=11 if kw['seed'] != 11 else 12,
         skip_shuffle=not kw['skip_shuffle'])
     return ds.shuffle_repeat_batch(base, **kw)
+  if call in ('partial_override', 'replace'):
+    # A two-step history: an hparams object is built first and only SOME fields
+    # are overridden afterwards (keyword overrides or hparams.replace).  Which
+    # fields: num_epochs and num_steps always (the object holds the other one
+    # of "None / a number" for each), the remaining fields alternate with the
+    # batch size, so the object already carries their final values.
+    b = kw['batch_size']
+    over = {'num_epochs': kw['num_epochs'], 'num_steps': kw['num_steps']}
+    base_kw = dict(kw)
+    base_kw['num_epochs'] = None if kw['num_epochs'] is not None else 2
+    base_kw['num_steps'] = 5 if kw['num_steps'] is None else (
+        None if base_kw['num_epochs'] is not None else kw['num_steps'] + 1)
+    for j, f in enumerate(['drop_remainder', 'seed', 'skip_shuffle', 'batch_size']):
+      if (b + j) % 2:
+        over[f] = kw[f]
+        base_kw[f] = {'drop_remainder': not kw[f], 'skip_shuffle': not kw[f],
+                      'seed': 11 if kw[f] != 11 else 12, 'batch_size': b + 2}[f]
+    base = fedjax.ShuffleRepeatBatchHParams(**base_kw)
+    if call == 'replace':
+      return ds.shuffle_repeat_batch(base.replace(**over))
+    return ds.shuffle_repeat_batch(base, **over)
   if call == 'defaults':
     # Only what differs from the documented defaults is passed.
     kw = {k: v for k, v in kw.items()
@@ -384,7 +405,7 @@ SEEDS = st.one_of(st.sampled_from(range(21)),
                   st.sampled_from([1, 0, 2**31 - 1, 2**31, 2**32 - 1, 12345]),
                   st.integers(0, 2**32 - 1),
                   st.integers(2**16, 2**32 - 1))
-CALLS = ['kwargs', 'hparams', 'defaults', 'override']
+CALLS = ['kwargs', 'hparams', 'defaults', 'override', 'partial_override', 'replace']
 
 
 @functools.lru_cache(maxsize=None)
